@@ -66,6 +66,11 @@ def formulas_for(pos, faults, qualify=False, alt=None):
         c['E2'] = "='[c.xlsx]Alpha'!A1+'[c.xlsx]Beta'!A1"
         c['E3'] = "=SUM('[c.xlsx]Alpha'!A1:A2)"
         c['E4'] = '=[2]Alpha!A1*2'            # numeric external-link form of the readable linked book
+        # a defined name of the linked workbook, used by cells that sort before and after the faulted ones
+        # (the linked workbook has a defined name used by two of its own cells: a healthy one, and one that also refers to a sheet the
+        #  linked workbook does not have; the faulty one sorts after the healthy one and is completed first)
+        c['A3'] = "='[c.xlsx]Alpha'!B1+0"
+        c['E5'] = "=IFERROR('[c.xlsx]Alpha'!C9,7)+'[c.xlsx]Alpha'!B2"
 
     return c, tgt
 
@@ -98,6 +103,8 @@ def expected(pos, faults, path='file', alt=None):
         exp['E2'] = ('n', 70.0)
         exp['E3'] = ('n', 35.0)
         exp['E4'] = ('n', 60.0)
+        exp['A3'] = ('n', 6.0)
+        exp['E5'] = ('n', 47.0)
     return exp
 
 
@@ -118,7 +125,7 @@ def judge(sol, pos, faults, path, fails, alt=None, P=P):
             elif g[1] not in e[1]:
                 fails.append(Fail('wrong-error-kind', got=g, exp=e[1], cell=c, **desc))
         elif g != e:
-            cls = 'damage-not-local' if c in ('B1', 'B2', 'E1', 'E2', 'E3', 'E4', 'A1', 'A2') or (c.startswith('C') and e[0] == 'n') else 'dependent-wrong'
+            cls = 'damage-not-local' if c in ('B1', 'B2', 'E1', 'E2', 'E3', 'E4', 'E5', 'A1', 'A2', 'A3') or (c.startswith('C') and e[0] == 'n') else 'dependent-wrong'
             fails.append(Fail(cls, got=g, exp=e, cell=c, **desc))
 
 
@@ -158,6 +165,11 @@ def run_case(case):
                 wa.title = 'Alpha'
                 wa['A1'], wa['A2'] = 30, 5
                 wc.create_sheet('Beta')['A1'] = 40
+                wd = wc.create_sheet('Data')           # reached only through the defined name CNAME
+                wd['A1'], wd['A2'], wd['A3'] = 1, 2, 3
+                wc.defined_names['CNAME'] = DefinedName('CNAME', attr_text='Data!$A$1:$A$3')
+                wc.defined_names['CONE'] = DefinedName('CONE', attr_text='Beta!$A$1')
+                wa['B1'], wa['B2'], wa['C9'] = '=SUM(CNAME)', '=CONE', '=SUM(CNAME)+Ghost!A1'
                 wc.save(os.path.join(d, 'c.xlsx'))
                 sol = formulas.ExcelModel().loads(os.path.join(d, book)).finish().calculate()
         else:
